@@ -117,6 +117,9 @@ class JBatch:
 
     def __init__(self, rng, sid, nvals, with_ref=False, features=None, bad_prob=0.02):
         self.sid = sid
+        # repeated wrapper fields are outside the guards of the JSON theorems (`fieldJsonOk`: "a wrapper field is singular";
+        # C05.repeated_wrapper_empty_witness says what to_dict does with them): the binary checks generate them, these do not
+        features = features or (bpgen.ALL_FEATURES - {"repwrapper"})
         self.schema = rename_fields(rng, bpgen.random_schema(rng, features=features), bad_prob)
         self.classes = bpgen.build_bp(self.schema)
         self.refs = bpgen.build_ref(self.schema) if with_ref else None
